@@ -242,6 +242,10 @@ def _wire(chk):
     chk.check("xeofs.single.eof.EOF._fit_algorithm" in reach, "WIRE.hilbert.fit", fa, None,
               construct="HilbertEOF._fit_algorithm -> EOF._fit_algorithm", why="HilbertEOF no longer fits through EOF._fit_algorithm")
     _extended(chk)
+    # the delay-embedded matrix holds exactly the complete delay windows: N - (embedding - 1) * tau rows (polynomial normal
+    # form of the slice stop; rule body shared with C10.SPECIAL.embed)
+    from .c10 import _embed as _embed_keep
+    _embed_keep(chk, keep_rule=None, window_rule="WIRE.extended.window", base_rule=None)
     _hilbert_pad(chk)
     # the stored decomposition stays what fit computed: no accessor rescales the stored components / scores in place
     # (shared with C14's rule; here it protects orthonormality of components() on every later call)
